@@ -303,6 +303,24 @@ type mconnAPI interface {
 	Status() p2p.ConnectionStatus
 }
 
+// The calls are made from functions that are not inlined and see only the
+// interface, so the compiler cannot devirtualise and inline the p2p methods
+// into harness code.
+
+//go:noinline
+func doSend(m mconnAPI, try bool, ch byte, msg interface{}) bool {
+	if try {
+		return m.TrySend(ch, msg)
+	}
+	return m.Send(ch, msg)
+}
+
+//go:noinline
+func doCanSend(m mconnAPI, ch byte) bool { return m.CanSend(ch) }
+
+//go:noinline
+func doStatus(m mconnAPI) p2p.ConnectionStatus { return m.Status() }
+
 type sentRec struct {
 	mtx      sync.Mutex
 	accepted map[string][][]byte // key ch/sender
@@ -324,12 +342,12 @@ func runSender(o *rec, mc mconnAPI, dir byte, sp senderPlan, seed int64, sr *sen
 		var ok bool
 		if m.Try {
 			if i%2 == 0 {
-				mc.CanSend(sp.Ch)
+				doCanSend(mc, sp.Ch)
 			}
-			ok = mc.TrySend(sp.Ch, msg)
+			ok = doSend(mc, true, sp.Ch, msg)
 			o.Count("c_trysend_calls", 1)
 		} else {
-			ok = mc.Send(sp.Ch, msg)
+			ok = doSend(mc, false, sp.Ch, msg)
 			o.Count("c_send_calls", 1)
 		}
 		if ok {
@@ -353,7 +371,7 @@ func runSender(o *rec, mc mconnAPI, dir byte, sp senderPlan, seed int64, sr *sen
 	mk := mkMarker(dir, sp.Ch, sp.Sender, sentinelSeq)
 	msg, expect := buildMsg(18, mk, rng)
 	for atomic.LoadInt32(dead) == 0 {
-		if mc.Send(sp.Ch, msg) {
+		if doSend(mc, false, sp.Ch, msg) {
 			acc = append(acc, expect)
 			break
 		}
@@ -516,7 +534,7 @@ func runSession(o *rec, p *sessPlan) {
 					return
 				case <-time.After(3 * time.Millisecond):
 					for _, m := range []mconnAPI{A.mc, B.mc} {
-						_ = m.Status()
+						_ = doStatus(m)
 					}
 					o.Count("c_status_calls", 2)
 				}
@@ -602,7 +620,7 @@ func runSession(o *rec, p *sessPlan) {
 		B.mtx.Lock()
 		before := len(B.recvd[cp.ID])
 		B.mtx.Unlock()
-		ok := mconnAPI(A.mc).Send(cp.ID, msg)
+		ok := doSend(A.mc, false, cp.ID, msg)
 		o.Count("c_overflow_cases", 1)
 		if ok {
 			wd := time.After(120 * time.Second)
@@ -706,7 +724,7 @@ func monitorMConn(o *rec) {
 	if !mconnSelfTest(o) {
 		return
 	}
-	n := lib.Pick(160, 5000)
+	n := lib.Pick(120, 2500)
 	if v := os.Getenv("C20_DEBUG_SESSIONS"); v != "" {
 		fmt.Sscan(v, &n)
 	}
